@@ -62,6 +62,24 @@ impl Drop for Owner {
     }
 }
 
+/// zero-sized owners (a guard / lease over memory that lives elsewhere): identity through the
+/// type parameter, the bytes through a table
+const NZST: usize = 4;
+static ZMEM: [(AtomicUsize, AtomicUsize); NZST] = [const { (AtomicUsize::new(0), AtomicUsize::new(0)) }; NZST];
+static ZK: [AtomicUsize; NZST] = [const { AtomicUsize::new(0) }; NZST];
+struct ZOwner<const S: usize>;
+impl<const S: usize> AsRef<[u8]> for ZOwner<S> {
+    fn as_ref(&self) -> &[u8] {
+        OWN_ASREF[ZK[S].load(Ordering::SeqCst)].fetch_add(1, Ordering::SeqCst);
+        unsafe { std::slice::from_raw_parts(ZMEM[S].0.load(Ordering::SeqCst) as *const u8, ZMEM[S].1.load(Ordering::SeqCst)) }
+    }
+}
+impl<const S: usize> Drop for ZOwner<S> {
+    fn drop(&mut self) {
+        OWN_DROP[ZK[S].load(Ordering::SeqCst)].fetch_add(1, Ordering::SeqCst);
+    }
+}
+
 pub enum H {
     B(Bytes),
     M(BytesMut),
@@ -111,6 +129,7 @@ pub struct Machine {
     pub hs: Vec<Option<H>>, // index = handle id (0 unused)
     pub fresh: u8,
     pub owners: Vec<(usize, usize)>, // base,len of owner k's memory
+    zmem: Vec<Vec<u8>>,              // the bytes behind the zero-sized owners of this program
     pub out: String,
     pub evno: usize,
     pub evbuf: Vec<la::Event>,
@@ -149,6 +168,7 @@ impl Machine {
             hs: vec![None],
             fresh: 1,
             owners: Vec::new(),
+            zmem: Vec::new(),
             out: String::with_capacity(1 << 20),
             evno: 0,
             evbuf: Vec::with_capacity(1 << 14),
@@ -424,6 +444,7 @@ impl Machine {
         // drop anything left (outside any law), forget ledger
         self.hs.clear();
         self.hs.push(None);
+        self.zmem.clear();
         la::reset();
         self.owners.clear();
         for k in 0..NOWN {
@@ -528,6 +549,7 @@ impl Machine {
         }
         self.hs.reserve(2);
         self.owners.reserve(1);
+        self.zmem.reserve(1);
         newids.reserve(2);
         // what the event looks like if the process dies inside the call (the driver turns the
         // last intent line into an `abort` event)
@@ -602,8 +624,22 @@ impl Machine {
                     la::set_window(1);
                     // (an empty owner still has an address: its handles are located through it)
                     self.owners.push((dv.as_ptr() as usize, dv.len().max(1)));
-                    let owner = Owner { k, data: dv, panic_in_asref: op.mode == 1, panic_in_drop: op.mode == 3 };
-                    let b = Bytes::from_owner(owner);
+                    // mode 4: a zero-sized owner (the first NZST of a program; then an ordinary one)
+                    let slot = self.zmem.len();
+                    let b = if op.mode == 4 && slot < NZST {
+                        ZMEM[slot].0.store(dv.as_ptr() as usize, Ordering::SeqCst);
+                        ZMEM[slot].1.store(dv.len(), Ordering::SeqCst);
+                        ZK[slot].store(k, Ordering::SeqCst);
+                        self.zmem.push(dv);
+                        match slot {
+                            0 => Bytes::from_owner(ZOwner::<0>),
+                            1 => Bytes::from_owner(ZOwner::<1>),
+                            2 => Bytes::from_owner(ZOwner::<2>),
+                            _ => Bytes::from_owner(ZOwner::<3>),
+                        }
+                    } else {
+                        Bytes::from_owner(Owner { k, data: dv, panic_in_asref: op.mode == 1, panic_in_drop: op.mode == 3 })
+                    };
                     newids.push(self.put(H::B(b)));
                 }
                 "m_new" => {
